@@ -4,6 +4,7 @@ from accelforge.mapper.FFM._join_pmappings.compatibility import (
     CompatibilityDiff,
 )
 from collections import defaultdict
+import os
 import itertools
 import logging
 import time
@@ -867,6 +868,13 @@ def join_pmappings(
         # be able to merge with it. If so, we can drop them immediately.
         # ======================================================================
         lookahead_filter = True
+        # verification hook (off unless ACCELFORGE_VERIF=1): lets a harness switch the
+        # look-ahead elimination off to obtain a reference join without it
+        if (
+            os.environ.get("ACCELFORGE_VERIF") == "1"
+            and os.environ.get("ACCELFORGE_VERIF_NO_LOOKAHEAD") == "1"
+        ):
+            lookahead_filter = False
         if lookahead_filter:
             cur_tensors = left_tensors | right_tensors
             for next_pmapping_groups in pmgroups:
